@@ -33,14 +33,17 @@ Build(k, db, n, ti, t, x) ==
     LET pos(i) == IF i = 1 THEN "first" ELSE IF i = 2 THEN x.p2 ELSE x.p3
         firstCtx == IF ti = 1 THEN 2 ELSE 1
         ctxq(i) == IF i = firstCtx THEN x.q1 ELSE x.q2
-    IN [kind |-> k, dbset |-> db,
+    IN [kind |-> k, sdb |-> db,
         refs |-> [i \in 1..n |-> IF i = ti THEN [t EXCEPT !.pos = pos(i)] ELSE PlainRef(ctxq(i), pos(i))]]
 
 UNFeat(d) == LET S == {i \in DOMAIN d.refs : d.refs[i].cls # "plain"}
-             IN IF S = {} THEN 0 ELSE URefNFeat(d.refs[CHOOSE i \in S : TRUE])
+             IN IF S = {} THEN 0
+                ELSE LET r == d.refs[CHOOSE i \in S : TRUE]       \* a qualifier is a decoration only when it is optional
+                     IN URefNFeat(r) - B2N(r.qual # "none" /\ d.sdb # "rule")
 InSet(d) == /\ UWF(d)
             /\ Len(d.refs) = 3 => UNFeat(d) <= 1
-Light(d) == Len(d.refs) <= 2 /\ UNFeat(d) + B2N(~d.dbset) <= 1
+Light(d) == \/ Len(d.refs) <= 2 /\ UNFeat(d) + B2N(d.sdb # "rule") <= 1
+            \/ Len(d.refs) = 1 /\ UNFeat(d) + B2N(d.sdb # "rule") <= 2
 
 TargetLight == SelectSeq(Target, LAMBDA r : URefNFeat(r) <= 1)
 
@@ -55,7 +58,7 @@ Pick(k, db, n, ts, ps) ==
           /\ c' = d
 
 Next == /\ ~IsCase
-        /\ \E k \in UKinds, db \in BOOLEAN :
+        /\ \E k \in UKinds, db \in SessionDbs :
               \/ Pick(k, db, 1, Target, <<NoX>>)
               \/ Pick(k, db, 2, Target, P2[k])
               \/ Pick(k, db, 3, TargetLight, P3[k])
@@ -63,7 +66,7 @@ Next == /\ ~IsCase
 Init == c = NoCase
 Spec == Init /\ [][Next]_vars
 
-Out(d) == [kind |-> d.kind, dbset |-> d.dbset, refs |-> d.refs, sharded |-> ParserSaysSharded(d)]
+Out(d) == [kind |-> d.kind, sdb |-> d.sdb, refs |-> d.refs, sharded |-> ParserSaysSharded(d)]
 Emit == IsCase => PrintT(<<"CASE", ToJson(Out(c))>>)
 
 WellFormed == IsCase => UWF(c) /\ \A i \in DOMAIN c.refs : c.refs[i] \in URef
